@@ -31,28 +31,35 @@ pub fn minimise(prop: Prop, s: &Scn, v: &Violation, threads: usize, budget_s: f6
     let mut cur = s.clone();
     let mut cur_v = v.clone();
     let mut stats = MinStats::default();
+    // Candidates are listed in a fixed order (big cuts first). After accepting candidate i the
+    // next round resumes scanning at i: everything before it was just rejected on an almost
+    // identical scenario; the skipped prefix is re-tried once nothing else works.
+    let mut resume_at = 0usize;
     loop {
-        if t0.elapsed().as_secs_f64() > budget_s || stats.rounds > 400 {
+        if t0.elapsed().as_secs_f64() > budget_s || stats.rounds > 5000 {
             break;
         }
-        let cands = scn::shrink_candidates(&cur);
+        let (cands, content_start) = scn::shrink_candidates(&cur);
         if cands.is_empty() {
             break;
         }
         stats.rounds += 1;
-        // evaluate in windows so that an early hit does not pay for the whole list
+        let n = cands.len();
+        let start = resume_at.min(n);
+        // scan order: start..n, then 0..start
+        let order: Vec<usize> = (start..n).chain(0..start).collect();
         let mut accepted = None;
         let window = (threads * 2).max(8);
-        let mut start = 0;
-        while start < cands.len() && accepted.is_none() {
-            let end = (start + window).min(cands.len());
-            let slice = &cands[start..end];
+        let mut pos = 0;
+        while pos < order.len() && accepted.is_none() {
+            let end = (pos + window).min(order.len());
+            let slice: Vec<&Scn> = order[pos..end].iter().map(|i| &cands[*i]).collect();
             stats.tried += slice.len();
             let clause = cur_v.clause.clone();
-            if let Some(i) = pool::first_match(slice, threads, |c| still_fails(prop, c, &clause).is_some()) {
-                accepted = Some(start + i);
+            if let Some(i) = pool::first_match(&slice, threads, |c| still_fails(prop, c, &clause).is_some()) {
+                accepted = Some(order[pos + i]);
             }
-            start = end;
+            pos = end;
             if t0.elapsed().as_secs_f64() > budget_s {
                 break;
             }
@@ -62,12 +69,14 @@ pub fn minimise(prop: Prop, s: &Scn, v: &Violation, threads: usize, budget_s: f6
                 if let Some(nv) = still_fails(prop, &cands[i], &cur_v.clause) {
                     cur = cands[i].clone();
                     cur_v = nv;
+                    // structural cuts change the candidate list: start over; content shrinking resumes
+                    resume_at = if i >= content_start { i } else { 0 };
                 } else {
-                    // flaky candidate (only possible for `uncontrolled`): stop here
+                    // flaky candidate (only possible when the violation is not a function of the scenario)
                     break;
                 }
             }
-            None => break,
+            None => break, // the scan covered every candidate
         }
     }
     (cur, cur_v, stats)
